@@ -8,16 +8,17 @@ claim(
     "C01",
     "other",
     "Partial (mechanisms 1, 3 and 4, and the unwrap/unreachable sites of mechanism 2 that lie inside the functions listed). Unbounded proof (Verus, requires/ensures/invariant/decreases on the function text extracted by span on every run "
-    "from parse/base.rs, sass.rs, stylesheet.rs, media_query.rs, keyframes.rs, at_root_query.rs, value.rs, lexer.rs, error.rs, lib.rs, common.rs, ast/expr.rs and ast/stmt.rs: 19 units, 131 functions) that the scanner layer of all "
+    "from parse/base.rs, sass.rs, stylesheet.rs, media_query.rs, keyframes.rs, at_root_query.rs, value.rs, lexer.rs, error.rs, lib.rs, common.rs, ast/expr.rs, ast/stmt.rs, parse/css.rs, selector/parse.rs and selector/attribute.rs: 22 units, 170 functions) that the scanner layer of all "
     "three syntaxes - BaseParser's 20 scanning methods incl. declaration_value, the indented syntax's overrides, indentation look-ahead and comment parsers, the "
     "stylesheet parser's interpolation/comment/url/string/almost-any-value/declaration-value scanners, the media-query, keyframes-selector and @at-root query parsers, "
     "the number-literal scanners - and, above it, the @media/@supports/@import grammars, argument declarations and invocations, member lists and `with (..)` configurations, the statement-level block loops "
     "(parse_children, parse_statements, @if/@else chains, @each/@while heads, variable declarations; indented syntax: parse_statements, parse_child, while_indented_lower, scan_else), the calculation grammar, "
-    "parenthesised lists and maps - terminates on every token buffer, keeps the cursor inside the buffer, never modifies the buffer, satisfies the progress clauses its "
+    "parenthesised lists and maps, the selector grammar (selector/parse.rs, attribute.rs), the statement and at-rule dispatchers with the style-rule and at-rule parsers they reach - terminates on every token buffer, keeps the cursor inside the buffer, never modifies the buffer, satisfies the progress clauses its "
     "callers' measures need, has no integer overflow/underflow, and never reaches an unwrap()/unreachable!()/todo!()/raw_text/hex_char_for/char::from_u32().unwrap() "
     "precondition failure; the error conversion chain (SassError::raw/kind, raw_to_parse_error: mechanism 4) keeps its two unreachable!()s unreachable for every error value; the real Lexer "
     "functions meet, for buffers of any length, the interface contracts the parser units assume; relative to assumed, undischarged contracts: the expression parser entry points do not move the cursor backwards or touch the buffer; the statement callback passed to the block loops does neither and has "
-    "consumed input when it returns Ok (the block loops' termination rests on it; termination of the two callback loops of the indented syntax is not proved at all); str::parse::<f64>() does not fail on scanned number text. The Lexer interface and the leaf methods Verus "
+    "consumed input when it returns Ok (the block loops' termination rests on it) - proved for parse_statement itself (unit stylesheet_rules) relative to parse_declaration_or_buffer and five rule parsers that stay assumed, "
+    "still assumed for function_child and the top-level @charset closure; termination of the two callback loops of the indented syntax is not proved at all; two selector-parser leaves (eat_whitespace, parse_a_n_plus_b) are assumed; str::parse::<f64>() does not fail on scanned number text. The Lexer interface and the leaf methods Verus "
     "cannot take (expect_char, scan, scan_ident_char, consume/expect_identifier) are discharged by Kani on the real code (bounded: buffer <= 4 tokens, "
     "loop-free functions); the char helpers and std specifications over all char/u32 (complete). Number::convert's precondition (table entry exists) "
     "is discharged at its call sites in sass_number.rs (all 37x37 simple unit pairs), Value::cmp and clamp() (unit representatives). Level 'other' "
